@@ -6,6 +6,7 @@ from sa.rules import store, ownrule
 def check(ix, rep):
     from sa.rules import round11 as _r11
     rep.floor('get_value implementations', _r11.check_get_value(ix, rep), 2)
+    rep.floor('variable names re-pointed by the pastifier', _r11.check_variable_remap(ix, rep), 1)
     n = store.check_store(ix, rep)
     rep.floor('result-store obligations', n, 12)
     ni = store.check_identity_keys(ix, rep)
